@@ -490,7 +490,7 @@ void ExecImpl::op_q_sat(const Op& op) {
   const MExp& e = M.exps[id];
   bool s = rexps[static_cast<size_t>(id)].ep->is_satisfied(), f = rexps[static_cast<size_t>(id)].ep->is_saturated();
   if (s != e.sat() || f != e.full())
-    fail(e.forb() ? "C03,C07" : "C03", "flags", "is_satisfied/is_saturated = " + std::to_string(s) + "/" + std::to_string(f) + " but model says " + std::to_string(e.sat()) + "/" + std::to_string(e.full()) + " for " + describe_exp(id));
+    fail((std::string(e.forb() ? "C03,C07" : "C03") + (s != e.sat() ? ",C04" : "")).c_str(), "flags", "is_satisfied/is_saturated = " + std::to_string(s) + "/" + std::to_string(f) + " but model says " + std::to_string(e.sat()) + "/" + std::to_string(e.full()) + " for " + describe_exp(id));
 }
 
 void ExecImpl::op_q_completed(const Op& op) {
@@ -510,7 +510,8 @@ void ExecImpl::observe_flags() {
     bool s = ep->is_satisfied(), f = ep->is_saturated();
     ++st.flag_observations;
     if (s != e.sat() || f != e.full()) {
-      fail(e.forb() ? "C03,C07" : "C03", "flags", "after step: is_satisfied/is_saturated = " + std::to_string(s) + "/" + std::to_string(f) + " but model says " + std::to_string(e.sat()) + "/" + std::to_string(e.full()) + " for " + describe_exp(e.id));
+      // a wrong is_satisfied() is a wrong idea of "below its lower bound": the end-of-life report (C04) will be wrong too
+      fail((std::string(e.forb() ? "C03,C07" : "C03") + (s != e.sat() ? ",C04" : "")).c_str(), "flags", "after step: is_satisfied/is_saturated = " + std::to_string(s) + "/" + std::to_string(f) + " but model says " + std::to_string(e.sat()) + "/" + std::to_string(e.full()) + " for " + describe_exp(e.id));
       return;
     }
   }
